@@ -200,7 +200,7 @@ PROPS = {
              "searched with the same Lean-defined predicate (tok urls) and an independent Go one (html.UnescapeString based).",
         technique="Lean 4 theorems over the hand-written renderer/util model + regenerated facts; differential correspondence against the Go "
                   "implementation; enumerated scheme-spelling search on the real parser+renderer",
-        components=["urlspell", "render", "util"],
+        components=["urlspell", "render", "util", "history"],
         explanation="safe_href / safe_autolink / footnote_href_harmless: for all byte strings, the href/src value written by the three URL emitters of "
                     "GM.Model.Render in safe mode (and any '#'-prefixed footnote href) is harmless under Spec.hrefDangerous; emitters_complete and "
                     "schemes_tied break when the Go code gains an href/src literal or changes a scheme constant. Component urlspell runs the real "
